@@ -36,6 +36,8 @@ KINDS = {
     "huawei-single": ("Huawei CE6870", ("stp region-configuration",), "instance 1 vlan", "huawei", 1),
     "cisco-simple": ("Cisco Catalyst 2960", (), "vlan", "cisco", 4),
     "nexus-simple": ("Cisco Nexus 9316", (), "vlan", "cisco", 4),
+    "cisco-vlangroup": ("Cisco Catalyst 2960", (), "vlan group G1 vlan-list", "cisco", 2),
+    "nexus-vlangroup": ("Cisco Nexus 9316", (), "vlan group G1 vlan-list", "cisco", 2),
     "cisco-swtrunk": ("Cisco Catalyst 2960", ("interface GigabitEthernet0/1",), "switchport trunk allowed vlan", "cisco-add", 4),
     "nexus-swtrunk": ("Cisco Nexus 9316", ("interface Ethernet1/1",), "switchport trunk allowed vlan", "cisco-add", 4),
 }
